@@ -31,9 +31,12 @@ HERE = os.path.dirname(os.path.abspath(__file__))
 PARAMS_JSON = HERE + '/params.json'
 
 CURVES = {0: 'bls12_381', 1: 'bls12_377', 2: 'bn254', 3: 'mnt4_298', 4: 'mnt4_753', 5: 'mnt6_298',
-          6: 'mnt6_753', 7: 'bw6_761', 8: 'bw6_767', 9: 'cp6_782'}
+          6: 'mnt6_753', 7: 'bw6_761', 8: 'bw6_767', 9: 'cp6_782',
+          # toy towers defined in harness/src/bin/c02.rs (mod toy), for exhaustive enumeration
+          10: 'toy7', 11: 'toy13', 12: 'toy7c'}
 KINDS = {0: [2, 6, 12], 1: [2, 6, 12], 2: [2, 6, 12], 3: [2, 4], 4: [2, 4],
-         5: [3, 7], 6: [3, 7], 7: [3, 7], 8: [3, 7], 9: [3, 7]}
+         5: [3, 7], 6: [3, 7], 7: [3, 7], 8: [3, 7], 9: [3, 7],
+         10: [2, 6, 12], 11: [2, 4], 12: [3, 7]}
 DEG = {2: 2, 3: 3, 4: 4, 6: 6, 7: 6, 12: 12}
 BASEDEG = {2: 1, 3: 1, 4: 2, 6: 2, 7: 3, 12: 6}
 KNAME = {2: 'fp2', 3: 'fp3', 4: 'fp4', 6: 'fp6_3o2', 7: 'fp6_2o3', 12: 'fp12'}
@@ -181,8 +184,95 @@ def exponent(rng):
     return [rng.getrandbits(64)], 'e_64'
 
 
+def all_elements(p, deg):
+    import itertools
+    return itertools.product(range(p), repeat=deg)
+
+
+def gen_exhaustive(rng, tier, P):
+    """toy towers: every element / every pair where enumerable"""
+    thorough = tier != 'quick'
+    def head(cid, kind):
+        return [[cid, kind], P['%d:%d' % (cid, kind)]]
+    unary = ['square', 'inverse', 'norm', 'neg', 'double']
+    # Fp2 over F_7 (NONRESIDUE = -1: complex squaring path, degree-2 multiplication path): all 49^2 pairs
+    h = head(10, 2)
+    els = [list(e) for e in all_elements(7, 2)]
+    for x in els:
+        for y in els:
+            yield 'mul', h + [x, y], 'toy7/fp2/all_pairs'
+        for op in unary + ['conjugate']:
+            yield op, h + [x], 'toy7/fp2/all_elements'
+        for k in range(0, 4):
+            yield 'frobenius_pow', h + [x, [k]], 'toy7/fp2/all_elements'
+        if any(x):
+            for op in ('cyc_square', 'cyc_inverse'):
+                yield op, h + [x, [1]], 'toy7/fp2/all_easy'
+            yield 'cyc_exp', h + [x, [1], [rng.randrange(1 << 12)]], 'toy7/fp2/all_easy'
+    for y in range(7):
+        for z in range(7):
+            yield 'mul_nr', h + [[y], [z]], 'toy7/fp2/all_base_pairs'
+    # Fp2 over F_13 (NONRESIDUE = 2: general squaring path): all elements; all pairs in thorough
+    h = head(11, 2)
+    els = [list(e) for e in all_elements(13, 2)]
+    for x in els:
+        for op in unary + ['conjugate']:
+            yield op, h + [x], 'toy13/fp2/all_elements'
+        for k in range(0, 3):
+            yield 'frobenius_pow', h + [x, [k]], 'toy13/fp2/all_elements'
+        ys = els if thorough else [rng.choice(els) for _ in range(6)]
+        for y in ys:
+            yield 'mul', h + [x, y], 'toy13/fp2/' + ('all_pairs' if thorough else 'sampled_pairs')
+    # Fp3 over F_7: all 343 elements; all pairs in thorough
+    h = head(12, 3)
+    els = [list(e) for e in all_elements(7, 3)]
+    for x in els:
+        for op in unary:
+            yield op, h + [x], 'toy7c/fp3/all_elements'
+        for k in range(0, 4):
+            yield 'frobenius_pow', h + [x, [k]], 'toy7c/fp3/all_elements'
+        ys = els if thorough else [rng.choice(els) for _ in range(4)]
+        for y in ys:
+            yield 'mul', h + [x, y], 'toy7c/fp3/' + ('all_pairs' if thorough else 'sampled_pairs')
+    # Fp4 over F_13 (28561 elements): all elements in thorough, a sample in quick
+    h = head(11, 4)
+    if thorough:
+        xs = (list(e) for e in all_elements(13, 4))
+    else:
+        xs = ([rng.randrange(13) for _ in range(4)] for _ in range(400))
+    for x in xs:
+        for op in ('square', 'inverse', 'norm'):
+            yield op, h + [x], 'toy13/fp4/' + ('all_elements' if thorough else 'sampled')
+        yield 'frobenius_pow', h + [x, [rng.randrange(0, 5)]], 'toy13/fp4/' + ('all_elements' if thorough else 'sampled')
+        if any(x):
+            yield 'cyc_square', h + [x, [1]], 'toy13/fp4/easy'
+    # Fp6 (both shapes) and Fp12 over F_7: random, with sparse second operands (many zero coordinates)
+    for (cid, kind) in ((10, 6), (12, 7), (10, 12)):
+        h = head(cid, kind)
+        deg = DEG[kind]
+        for _ in range(4000 if thorough else 250):
+            x = [rng.randrange(7) for _ in range(deg)]
+            y = [rng.choice([0, 0, rng.randrange(7)]) for _ in range(deg)]
+            op = rng.choice(['mul', 'mul', 'square', 'inverse', 'frobenius_pow', 'cyc_square', 'cyc_inverse', 'cyc_exp', 'norm'])
+            tag = '%s/%s/dense_x_sparse' % (CURVES[cid], KNAME[kind])
+            if op == 'mul':
+                yield op, h + [x, y], tag
+            elif op == 'frobenius_pow':
+                yield op, h + [y, [rng.randrange(0, deg + 1)]], tag
+            elif op in ('cyc_square', 'cyc_inverse'):
+                if any(x):
+                    yield op, h + [x, [1]], tag
+            elif op == 'cyc_exp':
+                if any(x):
+                    yield op, h + [x, [1], [rng.randrange(1 << 20)]], tag
+            else:
+                yield op, h + [y], tag
+
+
 def gen(rng, tier):
     P = load_params()
+    for c in gen_exhaustive(rng, tier, P):
+        yield c
     scale = 1 if tier == 'quick' else 30
     towers = [(cid, k) for cid in sorted(KINDS) for k in KINDS[cid]]
     for (cid, kind) in towers:
@@ -191,6 +281,8 @@ def gen(rng, tier):
         deg, bdeg = DEG[kind], BASEDEG[kind]
         big = p.bit_length() > 400
         w = (0.5 if big else 1.0) * (0.6 if deg >= 12 else 1.0)
+        if cid >= 10:
+            w = 2.0          # toy towers: tiny case lines, denser sampling
         head = [[cid, kind], par]
         tag = CURVES[cid] + '/' + KNAME[kind] + '/'
 
@@ -313,6 +405,8 @@ def _bits(case):
 def xcheck_ok(case):
     """cases cheap enough for in-kernel vm_compute on stdlib Z"""
     kind = case['args'][0][1]
+    if _bits(case) < 16:
+        return True       # toy towers: everything is cheap
     if case['op'] in ('frobenius_pow',):
         return False      # x^(p^k) on stdlib Z: 4-12 s per case in the kernel
     if case['op'] == 'cyc_exp':
@@ -328,9 +422,9 @@ def nontrivial(case, out):
     return any(any(x != 0 for x in a) for a in case['args'][2:3])
 
 
-XCHECK = {'quick': 96, 'thorough': 400}
+XCHECK = {'quick': 144, 'thorough': 480}
 RULE = ('every shipped tower (bls12_381/bls12_377/bn254: Fq2, Fq6 3-over-2, Fq12; mnt4_298/753: Fq2, Fq4; '
-        'mnt6_298/753, bw6_761/767, cp6_782: Fq3, Fq6 2-over-3) x operations x element classes (zero, one, -1, single '
+        'mnt6_298/753, bw6_761/767, cp6_782: Fq3, Fq6 2-over-3; toy towers over F_7 and F_13 enumerated exhaustively: all pairs of Fp2/F_7, all elements of Fp2/F_13 and Fp3/F_7, thorough: all pairs of those and all of Fp4/F_13) x operations x element classes (zero, one, -1, single '
         'non-zero coordinate, prime-field, sub-tower block, (a,-a), (a,a), top block only, all p-1, ternary, zero c0, random) '
         'x correlated second operands (equal, negated, conjugate); cyclotomic inputs = easy-part outputs; '
         'non-trivial = first operand non-zero; distinct = distinct case lines')
